@@ -45,9 +45,9 @@ CONFIG = {
                 "mithril-aggregator/src/database/query/certificate/get_master_certificate.rs",
                 "mithril-aggregator/src/multi_signer.rs", "mithril-aggregator/src/database/migration.rs",
                 "mithril-common/src/protocol/multi_signer.rs"],
-    "rule": "case = one history of 30-100 (quick) / 40-150 (thorough) events on a fresh database with 3-5 fixture signers, k in {5,40,70}, "
+    "rule": "quick = 40 histories, thorough = 240. case = one history of 30-100 (quick) / 40-150 (thorough) events on a fresh database with 3-5 fixture signers, k in {5,40,70}, "
             "m=100, entity types MithrilStakeDistribution, CardanoDatabase (+ CardanoStakeDistribution in every second history): ticks; "
-            "epoch +1 (and, in designated histories, +2 or an epoch nobody registered for); new immutable files; block progress; "
+            "epoch +1 (and, in every fourth history, +2, an epoch nobody registered for, or an epoch that passes without a certificate); new immutable files; block progress; "
             "registrations of all / some / one signer, repeated, late (round of the previous epoch still open), while the round is "
             "closed after a restart; signatures on time (bursts by a subset of the registered signers), early (buffered when "
             "authenticated, NotFound otherwise), for certified / expired / superseded open messages, repeated, made with the signer "
